@@ -79,7 +79,7 @@ func c17Oracle(c *Ctx, cs c17Case, s *c17Set, frames []c17SampleFrames) bool {
 	ok := true
 	bad := func(sig, what string) {
 		ok = false
-		c.Violation(sig, what, cs)
+		c.Violation(sig, c17Trunc(what), cs)
 	}
 	// all arrays non-nil (in memory: the nil slices are what JSON prints as null)
 	if !s.StacksNonNil {
